@@ -516,7 +516,8 @@ def pre_campaign(tier, seed):
                                            "; fixed two-site model without S_z conservation, all stored components non-zero",
                                    "pairs": n - nbig - nnear, "inconclusive": inconclusive, "fixed_near_resonance_cases": nnear,
                                    "large_block_models": [{"sites": b[0], "complex": b[1], "ranks": b[2]} for b in big_cases(tier)][:nbig]}}
-    return {"failures": failures[:1], "coverage": cov, "evaluations": n, "nontrivial_hashes": hashes, "classes": {"P>16": n - nbig - nnear, "large-blocks": nbig, "fixed-near-resonance": nnear}}
+    return {"failures": failures[:1], "coverage": cov, "evaluations": n, "nontrivial_hashes": hashes, "classes": {"P>16": n - nbig - nnear, "large-blocks": nbig, "fixed-near-resonance": nnear},
+            "samples": [{"sweep": "split container computation of the fixed model", "ranks_and_components": list(sweep_pairs(tier)[:3])}]}
 
 
 def vmax(vals):
